@@ -575,6 +575,21 @@ def forward_flows(body, local, max_steps=200):
 # --------------------------------------------------------------------------- switch helpers
 
 
+def enum_edge(body, sb, idx):
+    """Edge (src, label, dst) taken by variant `idx` of a two-variant enum (Option / Result / ControlFlow)
+    at the discriminant switch in block sb: its explicit target, or the otherwise edge when only the other
+    variant is listed (`if let` / `let else` lower to `[1 -> .., otherwise -> ..]`). None if undecidable."""
+    t = body.blocks[sb]["term"]
+    if t["k"] != "switch":
+        return None
+    tg = dict((v, x) for v, x in t["targets"])
+    if idx in tg:
+        return (sb, idx, tg[idx])
+    if (1 - idx) in tg and body.blocks[t["otherwise"]]["term"]["k"] != "unreachable":
+        return (sb, "otherwise", t["otherwise"])
+    return None
+
+
 def switch_on(body, bb):
     """For a switch terminator, trace its discriminant: returns (trace, term)."""
     t = body.blocks[bb]["term"]
